@@ -405,7 +405,7 @@ func c11RegSeedMsgs() [][]byte {
 	for _, tt := range []pb.TransportType{pb.TransportType_Prefix, pb.TransportType_Min, pb.TransportType_Obfs4} {
 		for _, libver := range []uint32{4, 3, 2, 0} {
 			for _, gen := range []uint32{1, 957} {
-				add(tt, libver, gen, nil, nil, false)                        // no parameters, derived phantom
+				add(tt, libver, gen, nil, nil, false)                         // no parameters, derived phantom
 				add(tt, libver, gen, nil, c11PinnedResponse(false, 0), false) // no parameters, pinned phantom
 			}
 		}
